@@ -16,7 +16,10 @@ const (
 func (t tri) String() string { return [...]string{"no", "yes", "unspecified"}[t] }
 
 // sOrigin is a serialized origin: scheme "://" host [ ":" port ] and nothing else.
-type sOrigin struct{ scheme, host, port string }
+type sOrigin struct {
+	scheme, host, port string
+	dubious            bool // the host carries a byte that is neither a host-name byte nor a delimiter
+}
 
 // parseOrigin accepts only a (lower-cased) serialized origin. Anything that
 // carries a path, query, fragment, userinfo, a space ... is not an origin.
@@ -47,12 +50,23 @@ func parseOrigin(s string) (sOrigin, bool) {
 	if host == "" {
 		return sOrigin{}, false
 	}
-	for _, ch := range host {
-		if !(ch >= 'a' && ch <= 'z' || ch >= '0' && ch <= '9' || ch == '.' || ch == '-' || ch == '_') {
+	dubious := false
+	for i := 0; i < len(host); i++ {
+		ch := host[i]
+		switch {
+		case ch >= 'a' && ch <= 'z' || ch >= '0' && ch <= '9' || ch == '.' || ch == '-' || ch == '_':
+		case strings.IndexByte("/?#@\\:*[] ", ch) >= 0:
+			// a URL delimiter (a parser reads ANOTHER host out of the value), a bracket, a
+			// blank or a literal '*': certainly not a host the configuration permits
 			return sOrigin{}, false
+		default:
+			// '%', ',', '|', a tab, a non-ASCII byte ...: the value is no serialized origin a
+			// browser can send, but no parser reads another host out of it and, as a string, it
+			// still has the dot-separated suffix. The statement is silent: see permits().
+			dubious = true
 		}
 	}
-	return sOrigin{scheme, host, port}, true
+	return sOrigin{scheme, host, port, dubious}, true
 }
 
 type refEntry struct {
@@ -127,12 +141,23 @@ func (p policy) permitted(raw string) (tri, string) {
 		return yes, "all-origins"
 	}
 	lo := strings.ToLower(raw)
+	dub := ""
 	if o, ok := parseOrigin(lo); ok {
 		for _, e := range p.entries {
 			if e.permits(o) {
+				if o.dubious {
+					dub = "entry='" + e.literal + "'"
+					break
+				}
 				return yes, "entry='" + e.literal + "'"
 			}
 		}
+	}
+	if dub != "" {
+		if p.fn != nil && p.fn(raw) && p.fn(lo) {
+			return yes, "func"
+		}
+		return unspec, dub
 	}
 	if p.fn != nil {
 		a, b := p.fn(raw), p.fn(lo)
